@@ -47,6 +47,8 @@ type clhtScenario struct {
 	Rangers  int    `json:"rangers"`
 	Resizes  int    `json:"resizes"`  // forced grow / shrink cycles by an extra goroutine (gate-scheduled runs)
 	Clears   int    `json:"clears"`   // Clear() calls by an extra goroutine (logged as operation "clr")
+	Hollow   int    `json:"hollow"`   // 1 = prelude (logged as client 1): fill a colliding chain beyond its root bucket, empty the root
+	                                  // bucket only, force a growth and a shrink - the chain then starts with an empty bucket
 	Policy   string `json:"policy"`   // free | random | pct
 	Seed     int64  `json:"seed"`
 }
@@ -210,6 +212,45 @@ func runCLHTScenario(sc clhtScenario) clhtResult {
 			log(linEv{C: 90, T: "call", Op: "clr", K: 0, RV: -1, Saw: -1})
 			m.Clear()
 			log(linEv{C: 90, T: "ret", Op: "clr", K: 0, RV: -1, Saw: -1})
+		}
+	}
+	if sc.Hollow == 1 {
+		cmp := func(k int, act string, v int) {
+			log(linEv{C: 1, T: "call", Op: "cmp", K: k})
+			saw, nc := -1, 0
+			out := m.Compute(k, func(old *vNode) *vNode {
+				nc++
+				saw = -1
+				if old != nil {
+					saw = old.v
+				}
+				if act == "inv" {
+					return nil
+				}
+				return &vNode{k, v}
+			})
+			e := linEv{C: 1, T: "ret", Op: "cmp", K: k, V: v, RV: -1, Saw: saw, Act: act, NC: nc}
+			if out != nil {
+				e.RV, e.ROK = out.v, 1
+			}
+			log(e)
+		}
+		for k := 0; k < sc.Keys; k++ {
+			cmp(k, "write", 500+k)
+		}
+		for k := 0; k < nodesPerMapBucket && k < sc.Keys-1; k++ {
+			cmp(k, "inv", 0)
+		}
+		m.resize(m.table.Load(), mapGrowHint)
+		m.resize(m.table.Load(), mapShrinkHint)
+		for k := 0; k < sc.Keys; k++ {
+			log(linEv{C: 1, T: "call", Op: "get", K: k, Act: ""})
+			n := m.Get(k)
+			e := linEv{C: 1, T: "ret", Op: "get", K: k, RV: -1, Saw: -1}
+			if n != nil {
+				e.RV, e.ROK = n.v, 1
+			}
+			log(e)
 		}
 	}
 	var fns []func()
